@@ -89,12 +89,8 @@ Definition used_contents (c : case) : list N :=
 Definition oracle_ok (c : case) : bool :=
   oracle_from c [] [] (hist c) && forallb (fun k => geom_ok (info c k)) (used_contents c).
 
-(* known classes (geometry only): flags set by the harness from the content's text:
-   bit 0: a non-ASCII character on a line that carries tokens (columns are rune counts, tag
-          columns mix byte offsets into them) *)
-Definition known (c : case) : N :=
-  if oracle_from c [] [] (hist c)
-  then (if existsb (fun k => negb (geom_ok (info c k)) && N.testbit (ci_flags (info c k)) 0) (used_contents c) then 1 else 0)
-  else 0.
+(* no recorded finding is left for C17 (token columns in runes and tag columns / lengths in bytes on
+   lines with non-ASCII text were repaired in /repo 6efc7b5: columns count UTF-16 code units) *)
+Definition known (c : case) : N := 0.
 
 Definition judge_all := judge_with tie_ok oracle_ok known.
